@@ -279,7 +279,7 @@ def handlers(emit, repo):
                 rb["digests2"] = []
             # the report
             report = {"error": "", "files": [], "blocks": []}
-            cli = {"rc": 0, "files": [], "diff": [], "variants": []}
+            cli = {"rc": 0, "files": [], "diff": [], "variants": [], "elsewhere": {"rc": 0, "same": True, "keysok": True}}
             if results is not None:
                 before = set(listing(scratch))
                 try:
@@ -315,6 +315,29 @@ def handlers(emit, repo):
                             if len(x) != len(y):
                                 diff.append("block %d length" % (b + 1))
                     cli["diff"] = diff[:20]
+                    # a shorter version of the same file in another folder, older than the report that
+                    # exists by now, while inputs/ still holds the long version under the same name: the
+                    # report must be rewritten from the file that was named on the command line
+                    if job.get("clivariants") and len(names) >= 2 and p.returncode == 0 and cblocks:
+                        os.makedirs(os.path.join(scratch2, "work"), exist_ok=True)
+                        wrel = "work/%s.py" % job["file"]
+                        write_input(os.path.join(scratch2, wrel), names[:-1], descs[:-1], job.get("style", 0))
+                        old = os.path.getmtime(cpath) - 3600
+                        os.utime(os.path.join(scratch2, wrel), (old, old))
+                        p4 = subprocess.run([sys.executable, os.path.join(repo, "conditionalrewards.py"), "-f", wrel, "-s"],
+                                            cwd=scratch2, stdout=subprocess.DEVNULL, stderr=subprocess.DEVNULL,
+                                            timeout=300, env=dict(os.environ, PYTHONDONTWRITEBYTECODE="1"))
+                        eblocks = parse_report(cpath, unmap) if os.path.exists(cpath) else []
+                        want = cblocks[:2 * (len(names) - 1)]
+                        same = len(eblocks) == len(want) and all(
+                            len(x) == len(y) and all(lx == ly for lx, ly in zip(x, y) if lx["label"] != "Total time")
+                            for x, y in zip(eblocks, want))
+                        try:
+                            keys_e = [unmap(str(k)) for k in cr.read_dict_from_file(os.path.join(scratch2, wrel)).keys()]
+                        except Exception as exc:
+                            keys_e = ["<" + type(exc).__name__ + ">"]
+                        cli["elsewhere"] = {"rc": 0 if p4.returncode == 0 else 1, "same": same,
+                                            "keysok": keys_e == [unmap(n) for n in names[:-1]]}
                     # other ways of typing the command (module Batch, CliRules): debug logging must not
                     # change the report; without -s nothing is written; an unknown log level is refused
                     cli["variants"] = []
